@@ -86,3 +86,8 @@ def nontrivial(case, result):
         hi = result.rstrip(")").split(" ")[-1]
         return any(int(x, 16) for x in hi[2:].split(","))
     return False
+
+
+def prebuild(root):
+    """translator: regenerate coq/Generated/DigitGen.v from /repo/src/digit.rs (proved equal to Model/Digit.v in Proofs/DigitTie.v)"""
+    return run_translator(root, "rs2v_digit.py")
